@@ -16,7 +16,12 @@ class CallMixin(object):
         f = e.func
         if any(isinstance(a, ast.Starred) for a in e.args) or any(k.arg is None for k in e.keywords):
             return self.call_starred(e, st)
-        # ---- specification forms / builtins by name
+        # ---- specification forms / builtins by name (in specifications they win over a local of the same name)
+        if isinstance(f, ast.Name) and (self.in_spec or self.ghost_depth > 0) and \
+                (getattr(self, "sf_" + f.id, None) is not None or f.id in self.reg.specfuns):
+            if getattr(self, "sf_" + f.id, None) is not None:
+                return [(st, getattr(self, "sf_" + f.id)(e, st))]
+            return [(st, self.call_specfun(f.id, e, st))]
         if isinstance(f, ast.Name) and self.lookup(f.id, st) is None:
             name = f.id
             sf = getattr(self, "sf_" + name, None)
@@ -520,7 +525,22 @@ class CallMixin(object):
 
     def m_list_pop(self, recv, args, kw, st, node):
         if args:
-            raise OutsideSubset("list.pop(i)")
+            z = z3.simplify(coerce(args[0], INT).t)
+            if not (z3.is_int_value(z) and z.as_long() == 0):
+                raise OutsideSubset("list.pop(i) for i != 0")
+            ok, bad = self.fork(st, core.llen(recv) > 0, getattr(node, "lineno", None), "pop0")
+            if bad is not None:
+                self.do_raise(bad, "IndexError")
+            if ok is None:
+                return []
+            ok = ok.copy()
+            r = fresh(recv.ty, "tail")
+            n = core.llen(recv)
+            ok.assume(core.llen(r) == n - 1,
+                      core.forall_int(0, n - 1, lambda j: z3.Select(core.larr(r), j) == z3.Select(core.larr(recv), j + 1)),
+                      core.forall_int(1, n, lambda j: z3.Select(core.larr(recv), j) == z3.Select(core.larr(r), j - 1),
+                                      pats=lambda j: [z3.Select(core.larr(recv), j)]))
+            return [(ok, core.lget(recv, 0), r)]
         ok, bad = self.fork(st, core.llen(recv) > 0, getattr(node, "lineno", None), "pop")
         if bad is not None:
             self.do_raise(bad, "IndexError")
@@ -543,6 +563,26 @@ class CallMixin(object):
 
     def m_list_copy(self, recv, args, kw, st, node):
         return [(st, recv)]
+
+    def m_list_remove(self, recv, args, kw, st, node):
+        x = self.adapt(args[0], recv.ty.elem)
+        ok, bad = self.fork(st, core.lcontains(recv, x), getattr(node, "lineno", None), "remove")
+        if bad is not None:
+            self.do_raise(bad, "ValueError")
+        if ok is None:
+            return []
+        ok = ok.copy()
+        p = fresh(INT, "rmpos").t
+        r = fresh(recv.ty, "removed")
+        n = core.llen(recv)
+        A, R = core.larr(recv), core.larr(r)
+        ok.assume(p >= 0, p < n, core.eq_t(recv.ty.elem, z3.Select(A, p), x.t),
+                  core.forall_int(0, p, lambda j: z3.Not(core.eq_t(recv.ty.elem, z3.Select(A, j), x.t))),
+                  core.llen(r) == n - 1,
+                  core.forall_int(0, n - 1, lambda j: z3.Select(R, j) == z3.If(j < p, z3.Select(A, j), z3.Select(A, j + 1))),
+                  core.forall_int(0, n, lambda j: z3.Implies(j != p, z3.Select(A, j) == z3.If(j < p, z3.Select(R, j), z3.Select(R, j - 1))),
+                                  pats=lambda j: [z3.Select(A, j)]))
+        return [(ok, NONEV, r)]
 
     # -- set
     def m_set_add(self, recv, args, kw, st, node):
@@ -621,6 +661,9 @@ class CallMixin(object):
 
     def m_set_copy(self, recv, args, kw, st, node):
         return [(st, recv)]
+
+    def m_set_clear(self, recv, args, kw, st, node):
+        return [(st, NONEV, core.sempty(recv.ty.elem))]
 
     def m_set_pop(self, recv, args, kw, st, node):
         ok, bad = self.fork(st, z3.Not(core.sisempty(recv)), getattr(node, "lineno", None), "setpop")
